@@ -340,7 +340,7 @@ fn packets6(run: &Arc<Run>, tier: Tier) {
                     }
                     let compressed = kind != 7 && bytes[0] & wire::F6_COMPRESSION != 0;
                     let mut w: Vec<p6::Warning> = Vec::new();
-                    let mut buf = [0u8; 2048];
+                    let mut buf = [0u8; 1400]; // the size the callers pass (the minimum the reader accepts)
                     let back = p6::Packet::read(&mut w, bytes, if kind == 7 { None } else { Some(tok) }, &mut buf[..])
                         .map_err(|e| format!("read failed: {:?} for {}", e, vp_core::hex_short(bytes)))?;
                     // the one warning the reader defines for a degenerate value
@@ -466,7 +466,7 @@ fn packets7(run: &Arc<Run>, tier: Tier) {
                     }
                     let compressed = kind != 7 && bytes[0] & wire::F7_COMPRESSION != 0;
                     let mut w: Vec<p7::Warning> = Vec::new();
-                    let mut buf = [0u8; 2048];
+                    let mut buf = [0u8; 1400]; // the size the callers pass (the minimum the reader accepts)
                     let back = p7::Packet::read(&mut w, bytes, &mut buf[..])
                         .map_err(|e| format!("read failed: {:?} for {}", e, vp_core::hex_short(bytes)))?;
                     w.retain(|x| !(kind == 5 && nchunks == 0 && *x == p7::Warning::ChunksNoChunks));
